@@ -35,6 +35,7 @@ pub fn child_main(args: &[String]) -> i32 {
         return 64;
     };
     // backstop against runaway memory (address space), far above any legitimate need
+    #[cfg(not(miri))]
     unsafe {
         let lim = libc::rlimit { rlim_cur: 6 << 30, rlim_max: 6 << 30 };
         libc::setrlimit(libc::RLIMIT_AS, &lim);
@@ -107,16 +108,31 @@ impl Outcome {
     }
 }
 
+/// how a worker child is started: directly, or through a wrapper (valgrind, `cargo miri run`)
+#[derive(Clone, Debug)]
+pub struct Launcher {
+    pub program: std::path::PathBuf,
+    /// arguments before `worker <judge> ...`
+    pub pre_args: Vec<String>,
+    pub env: Vec<(String, String)>,
+}
+
+impl Launcher {
+    pub fn direct(bin: &Path) -> Launcher {
+        Launcher { program: bin.to_path_buf(), pre_args: vec![], env: vec![] }
+    }
+}
+
 struct ShardState {
     results: Vec<(u64, Outcome)>,
 }
 
-fn run_shard(bin: &Path, judge: &str, extra: &[String], shard: &[&Case], timeout: Duration) -> Vec<(u64, Outcome)> {
+fn run_shard(l: &Launcher, judge: &str, extra: &[String], shard: &[&Case], timeout: Duration) -> Vec<(u64, Outcome)> {
     let mut st = ShardState { results: Vec::with_capacity(shard.len()) };
     let mut next = 0usize;
     let mut stalls = 0;
     while next < shard.len() {
-        let mut child = match Command::new(bin).arg("worker").arg(judge).args(extra).stdin(Stdio::piped()).stdout(Stdio::null()).stderr(Stdio::piped()).spawn() {
+        let mut child = match Command::new(&l.program).args(&l.pre_args).arg("worker").arg(judge).args(extra).envs(l.env.iter().map(|(k, v)| (k.as_str(), v.as_str()))).stdin(Stdio::piped()).stdout(Stdio::null()).stderr(Stdio::piped()).spawn() {
             Ok(c) => c,
             Err(e) => {
                 for c in &shard[next..] {
@@ -256,6 +272,10 @@ pub fn run_cases(bin: &Path, judge: &str, cases: &[Case], workers: usize, timeou
 }
 
 pub fn run_cases_args(bin: &Path, judge: &str, extra: &[String], cases: &[Case], workers: usize, timeout: Duration) -> Vec<(u64, Outcome)> {
+    run_cases_with(&Launcher::direct(bin), judge, extra, cases, workers, timeout)
+}
+
+pub fn run_cases_with(l: &Launcher, judge: &str, extra: &[String], cases: &[Case], workers: usize, timeout: Duration) -> Vec<(u64, Outcome)> {
     let workers = workers.max(1).min(cases.len().max(1));
     let mut shards: Vec<Vec<&Case>> = (0..workers).map(|_| Vec::new()).collect();
     // contiguous blocks keep neighbouring (similar) cases in one worker
@@ -268,7 +288,7 @@ pub fn run_cases_args(bin: &Path, judge: &str, extra: &[String], cases: &[Case],
         for sh in &shards {
             let all = &all;
             s.spawn(move || {
-                let r = run_shard(bin, judge, extra, sh, timeout);
+                let r = run_shard(l, judge, extra, sh, timeout);
                 all.lock().unwrap().extend(r);
             });
         }
@@ -279,7 +299,7 @@ pub fn run_cases_args(bin: &Path, judge: &str, extra: &[String], cases: &[Case],
     for (id, out) in all.iter_mut() {
         if let Outcome::Timeout { .. } = out {
             if let Some(c) = by_id.get(id) {
-                let again = run_shard(bin, judge, extra, &[*c], timeout * 10);
+                let again = run_shard(l, judge, extra, &[*c], timeout * 10);
                 match again.into_iter().next() {
                     Some((_, Outcome::Timeout { .. })) => *out = Outcome::Timeout { confirmed: true },
                     Some((_, o)) => *out = o,
